@@ -21,6 +21,7 @@ import (
 	chain "github.com/comdex-official/comdex/app"
 	assettypes "github.com/comdex-official/comdex/x/asset/types"
 	auctionsV2types "github.com/comdex-official/comdex/x/auctionsV2/types"
+	esmtypes "github.com/comdex-official/comdex/x/esm/types"
 	lendtypes "github.com/comdex-official/comdex/x/lend/types"
 	liqV2types "github.com/comdex-official/comdex/x/liquidationsV2/types"
 	markettypes "github.com/comdex-official/comdex/x/market/types"
@@ -283,12 +284,12 @@ func (e *c08Env) cfgLines() {
 	tr.Line("lend.init", e.state()...)
 }
 
-// state returns the six projection fields: counters, lends, borrows, totals, balances, prices.
+// state returns the seven projection fields: counters, lends, borrows, totals, balances, prices, emergency flags.
 func (e *c08Env) state() []string {
 	ctx, k := e.ctx, e.app.LendKeeper
 	var ls, bs, ss, ks, ps []string
 	for _, l := range k.GetAllLend(ctx) {
-		ls = append(ls, strings.Join([]string{u(l.ID), u(e.userNum[l.Owner]), u(l.PoolID), u(l.AssetID), l.AmountIn.Amount.String(), l.AvailableToBorrow.String()}, ":"))
+		ls = append(ls, strings.Join([]string{u(l.ID), u(e.userNum[l.Owner]), u(l.PoolID), u(l.AssetID), l.AmountIn.Amount.String(), l.AvailableToBorrow.String(), u(l.AppID)}, ":"))
 	}
 	for _, b := range k.GetAllBorrow(ctx) {
 		res := "0"
@@ -321,7 +322,26 @@ func (e *c08Env) state() []string {
 			ps = append(ps, u(id)+":"+u(twa.Twa))
 		}
 	}
-	return []string{u(k.GetUserLendIDCounter(ctx)) + "," + u(k.GetUserBorrowIDCounter(ctx)), strings.Join(ls, "|"), strings.Join(bs, "|"), strings.Join(ss, "|"), strings.Join(ks, "|"), strings.Join(ps, "|")}
+	// emergency flags: apps whose kill switch is on / pools listed in the depreciation record
+	var killed, dep []uint64
+	apps, _ := e.app.AssetKeeper.GetApps(ctx)
+	for _, a := range apps {
+		if ks, found := e.app.EsmKeeper.GetKillSwitchData(ctx, a.Id); found && ks.BreakerEnable {
+			killed = append(killed, a.Id)
+		}
+	}
+	if rec, found := k.GetPoolDepreciateRecords(ctx); found {
+		seen := map[uint64]bool{}
+		for _, d := range rec.IndividualPoolDepreciate {
+			if !seen[d.PoolID] {
+				seen[d.PoolID] = true
+				dep = append(dep, d.PoolID)
+			}
+		}
+	}
+	sort.Slice(killed, func(i, j int) bool { return killed[i] < killed[j] })
+	sort.Slice(dep, func(i, j int) bool { return dep[i] < dep[j] })
+	return []string{u(k.GetUserLendIDCounter(ctx)) + "," + u(k.GetUserBorrowIDCounter(ctx)), strings.Join(ls, "|"), strings.Join(bs, "|"), strings.Join(ss, "|"), strings.Join(ks, "|"), strings.Join(ps, "|"), joinU(killed) + "/" + joinU(dep)}
 }
 
 // ---------------------------------------------------------------------------------------------- external values
@@ -605,6 +625,24 @@ func (e *c08Env) opFundReserve(usr c08Acct, asset uint64, c sdk.Coin) string {
 	res := e.deliver(&lendtypes.MsgFundReserveAccounts{AssetId: asset, Lender: usr.addr.String(), Amount: c})
 	e.emit("fundReserve", res, u(usr.num), u(asset), e.did(c.Denom), c.Amount.String())
 	return res
+}
+
+// opSetKill turns the ESM kill switch of an app on or off (what the esm module stores on a passed proposal).
+func (e *c08Env) opSetKill(app uint64, on bool) {
+	if err := e.app.EsmKeeper.SetKillSwitchData(e.ctx, esmtypes.KillSwitchParams{AppId: app, BreakerEnable: on}); err != nil {
+		e.t.Fatal(err)
+	}
+	e.emit("setKill", "ok", u(app), c08b(on))
+}
+
+// opSetDepreciated lists a pool in the depreciation record (gov proposal handler AddPoolDepreciate); the flag of the entry is
+// drawn at random: IsPoolDepreciated only looks at the pool id.
+func (e *c08Env) opSetDepreciated(pool uint64) {
+	err := e.app.LendKeeper.AddPoolDepreciate(e.ctx, lendtypes.PoolDepreciate{IndividualPoolDepreciate: []lendtypes.IndividualPoolDepreciate{{PoolID: pool, IsPoolDepreciated: e.rng.Chance(50)}}})
+	if err != nil {
+		e.t.Fatal(err)
+	}
+	e.emit("setDepreciated", "ok", u(pool))
 }
 
 func (e *c08Env) opSetPrice(asset, twa uint64) {
@@ -1302,6 +1340,48 @@ func c08CorpusTwinLends(t *testing.T, tr *Trace, rng *Rng) {
 	e.opCloseLend(u1, 1)
 }
 
+// c08CorpusGuards — directed coverage: with the kill switch of the app on, every position message is refused and nothing changes;
+// with a pool depreciated, deposits / pledges / draws / new lends and borrows on it are refused while repay, withdraw and close work.
+func c08CorpusGuards(t *testing.T, tr *Trace, rng *Rng) {
+	e := c08Setup(t, tr, rng, 0)
+	e.cfgLines()
+	tr.Count("corpus")
+	a1, a2 := e.base[0], e.base[1]
+	u1, u2 := e.users[0], e.users[1]
+	n := func(x int64) sdk.Int { return sdk.NewInt(x) }
+	cA1 := func(x int64) sdk.Coin { return sdk.Coin{Denom: e.cDenom(a1), Amount: n(x)} }
+	e.opLend(u1, a1, e.denomOf[a1], n(2_000_000_000), 1, e.appOK) // lend 1
+	e.opLend(u2, a2, e.denomOf[a2], n(5_000_000_000), 1, e.appOK) // lend 2
+	e.opBorrow(u1, 1, 3, false, cA1(1_000_000_000), e.coin(a2, n(100_000_000)))
+	e.advance(86400)
+	e.opSetKill(e.appOK, true)
+	e.opLend(u2, a1, e.denomOf[a1], n(1_000_000), 1, e.appOK)
+	e.opDeposit(u1, 1, e.denomOf[a1], n(1_000_000))
+	e.opWithdraw(u1, 1, e.denomOf[a1], n(1_000_000))
+	e.opCloseLend(u2, 2)
+	e.opBorrow(u2, 2, 2, false, sdk.Coin{Denom: e.cDenom(a2), Amount: n(1_000_000_000)}, e.coin(a1, n(10_000_000)))
+	e.opBorrowAlternate(u2, a1, 1, e.coin(a1, n(10_000_000)), 3, false, e.coin(a2, n(1_000_000)), e.appOK)
+	e.opDepositBorrow(u1, 1, cA1(1_000_000))
+	e.opDraw(u1, 1, e.coin(a2, n(1_000_000)))
+	e.opRepay(u1, 1, e.coin(a2, n(1_000_000)))
+	e.opCloseBorrow(u1, 1)
+	e.opRepayWithdraw(u1, 1)
+	e.opCalc(u1)
+	e.opSetKill(e.appOK, false)
+	e.opDraw(u1, 1, e.coin(a2, n(1_000_000)))
+	e.opSetDepreciated(1)
+	e.opLend(u2, a1, e.denomOf[a1], n(1_000_000), 1, e.appOK)
+	e.opDeposit(u1, 1, e.denomOf[a1], n(1_000_000))
+	e.opDepositBorrow(u1, 1, cA1(1_000_000))
+	e.opDraw(u1, 1, e.coin(a2, n(1_000_000)))
+	e.opBorrow(u2, 2, 2, false, sdk.Coin{Denom: e.cDenom(a2), Amount: n(1_000_000_000)}, e.coin(a1, n(10_000_000)))
+	e.opRepay(u1, 1, e.coin(a2, n(1_000_000)))
+	e.opWithdraw(u1, 1, e.denomOf[a1], n(1_000_000))
+	e.opCalc(u1)
+	e.opCloseBorrow(u1, 1)
+	e.opCloseLend(u1, 1)
+}
+
 // ---------------------------------------------------------------------------------------------- test
 
 func TestC08(t *testing.T) {
@@ -1311,6 +1391,7 @@ func TestC08(t *testing.T) {
 	c08CorpusForeignPair(t, tr, rng)
 	c08CorpusHandover(t, tr, rng)
 	c08CorpusTwinLends(t, tr, rng)
+	c08CorpusGuards(t, tr, rng)
 	seqs := scale(24, 300)
 	maxOps := scale(90, 160)
 	for s := 0; s < seqs; s++ {
@@ -1336,7 +1417,18 @@ func TestC08(t *testing.T) {
 			}
 		}
 		nops := rng.Range(maxOps/2, maxOps)
+		killedNow := map[uint64]bool{}
+		killedFor := 0
 		for o := 0; o < nops; o++ {
+			if killedNow[e.appOK] {
+				killedFor++
+				if killedFor > 6 {
+					// switch it off again so that the rest of the history is not all rejections
+					e.opSetKill(e.appOK, false)
+					delete(killedNow, e.appOK)
+					killedFor = 0
+				}
+			}
 			switch rng.Intn(10) {
 			case 0:
 			case 1, 2:
@@ -1384,6 +1476,20 @@ func TestC08(t *testing.T) {
 				e.genPrice()
 			case p < 98:
 				e.genLiquidate()
+			case p < 99 && rng.Chance(40):
+				// emergency controls: the kill switch is toggled (it stays on for the next few messages), late in a history a pool
+				// may be depreciated for good
+				if rng.Chance(75) {
+					_, on := killedNow[e.appOK]
+					e.opSetKill(e.appOK, !on)
+					if on {
+						delete(killedNow, e.appOK)
+					} else {
+						killedNow[e.appOK] = true
+					}
+				} else if o > nops/2 {
+					e.opSetDepreciated(uint64(rng.Range(1, 2)))
+				}
 			case p < 99:
 				usr := e.user()
 				a := e.base[rng.Intn(4)]
